@@ -869,6 +869,26 @@ func (fv *FV) stdlibCall(st *State, call *ast.CallExpr, fn *types.Func, full str
 	case "context.Context.Err", "context.Context.Done", "context.Context.Value":
 	case "sort.Search":
 		return fv.sortSearch(st, call, args)
+	case "sort.SliceStable", "sort.Slice", "slices.Sort", "sort.Strings":
+		// in-place sort: the result is a permutation of the input. Only the
+		// permutation facts are modelled here (same length, same members, no
+		// new duplicates); ordering is not.
+		sv := args[0]
+		if sv.S == "Any" {
+			sv = fv.eval(st, call.Args[0])
+		}
+		if !strings.HasPrefix(sv.S, "(GSeq ") {
+			return nil, false
+		}
+		es := seqElemSort(sv.S)
+		r := fv.freshSort("sorted", sv.S)
+		r.Go = sv.Go
+		mem := fv.sess.fnMem(es)
+		fv.assume(st, fmt.Sprintf("(and (= (sq.len %s) (sq.len %s)) (= (sq.ref %s) (sq.ref %s)) (=> (%s %s) (%s %s)) (forall ((x!q %s)) (! (= (%s %s x!q) (%s %s x!q)) :pattern ((%s %s x!q)) :pattern ((%s %s x!q)))))",
+			r.T, sv.T, r.T, sv.T, fv.sess.fnNodup(es), sv.T, fv.sess.fnNodup(es), r.T, es, mem, r.T, mem, sv.T, mem, r.T, mem, sv.T))
+		fv.note("%s: modelled as an arbitrary permutation of its argument (ordering not modelled)", full)
+		fv.assign(st, call.Args[0], r)
+		return nil, true
 	}
 	return nil, false
 }
@@ -1032,6 +1052,13 @@ func (fv *FV) runBody(st *State, pkg *packages.Package, decl *ast.FuncDecl, lit 
 // ---------- calls by contract ----------
 
 func (fv *FV) callByContract(st *State, c *Contract, fn *types.Func, sig *types.Signature, all []Val, call *ast.CallExpr) []Val {
+	if fv.pure > 0 {
+		if c.Pure && sig.Results().Len() == 1 && c != fv.contract {
+			cpkg := fv.w.pkgOf(c.Pkg)
+			return []Val{fv.pureApp(c, all, &SpecEnv{fv: fv, names: map[string]Val{}, cur: st, old: st, pkg: cpkg, tsub: fv.tsub})}
+		}
+		fv.unsupported("call to %s inside a pure (spec-evaluated) context: callee is not declared pure", c.Key())
+	}
 	full := c.Key()
 	short := shortName(full)
 	fv.cnt["call:"+short]++
@@ -1106,13 +1133,78 @@ func (fv *FV) callByContract(st *State, c *Contract, fn *types.Func, sig *types.
 		}
 		fv.w.allocs[fv] = append(fv.w.allocs[fv], v.T)
 	}
+	// side effects of closures passed as arguments: variables they capture and assign
+	if call != nil {
+		for _, a := range call.Args {
+			lit, ok := unparen(a).(*ast.FuncLit)
+			if !ok {
+				continue
+			}
+			ms := fv.modifies(lit.Body)
+			for o := range ms.vars {
+				if o.Pos() >= lit.Pos() && o.Pos() <= lit.End() {
+					continue
+				}
+				if old, has := st.vars[o]; has && old.Clos == nil {
+					st.vars[o] = fv.freshVal(o.Name(), o.Type())
+				}
+			}
+			for _, k := range sortedKeys(ms.heap) {
+				fv.havocHeapKey(st, k)
+			}
+		}
+	}
+	// parameters modified in place: post(p) is a fresh value, written back to the argument
+	type wb struct {
+		arg ast.Expr
+		v   Val
+	}
+	var writeBacks []wb
+	for _, mp := range c.Mutates {
+		for i, pn := range c.Params {
+			if pn != mp || i >= len(all) {
+				continue
+			}
+			nv := fv.freshSort("post_"+mp, all[i].S)
+			nv.Go = all[i].Go
+			if nv.Go != nil {
+				if inv := fv.typeInv(nv.T, nv.Go, 0); inv != "true" {
+					fv.sess.fact(inv)
+				}
+			}
+			names["post:"+mp] = nv
+			if call != nil {
+				k := i
+				if sig.Recv() != nil {
+					k--
+				}
+				if k >= 0 && k < len(call.Args) {
+					writeBacks = append(writeBacks, wb{call.Args[k], nv})
+				}
+			}
+		}
+	}
 	env2 := &SpecEnv{fv: fv, names: names, cur: st, old: pre, pkg: cpkg, tsub: tsub}
 	if c.Pure && len(out) == 1 && fv.contract != c {
 		pv := fv.pureApp(c, all, env2)
 		fv.assume(st, fmt.Sprintf("(= %s %s)", out[0].T, pv.T))
 	}
 	for _, e := range c.Ensures {
-		fv.assume(st, fv.evalSpecBool(env2, e.Expr))
+		func() {
+			defer func() {
+				if r := recover(); r != nil {
+					if u, ok := r.(unsupported); ok && strings.Contains(u.msg, "impure closure") {
+						fv.note("call %s: postcondition %q not used (%s)", short, e.Label, u.msg)
+						return
+					}
+					panic(r)
+				}
+			}()
+			fv.assume(st, fv.evalSpecBool(env2, e.Expr))
+		}()
+	}
+	for _, w := range writeBacks {
+		fv.assign(st, w.arg, w.v)
 	}
 	if c.Trusted {
 		fv.assumed["trusted contract: "+full] = true
